@@ -11,6 +11,10 @@ l.textref  : C04 at TEXT level.  The harness generates STRUCTURED modifiers (any
 l.c09mixed : C09, the relation written from the property text (`disablesText`): sequences mixing rcode-only /
              CNAME / record rewrites and exceptions (the edge `[NOERROR rewrite, CNAME exception]` of the review),
              real DNSResult.DNSRewrites() vs model vs text-level reference (c09_text, c09_disablesText_eq).
+l.c07text  : C07 at TEXT level (Go-side asserts, expected answers per the theorems c07_text_*): pairs t / t,m through
+             IsHigherPriority in both directions — strictly higher for the modifiers where the text-level statement
+             holds, higher / tie / LOWER for a document-only option on a rule with < 2 / 2 / > 2 permitted content
+             types (c07_text_doconly_iff), tie for a content type on a document-only rule and for ,dnsrewrite=.
 l.c08order : C08, the value-ORDER behaviour of the twin relation (Go-side asserts, expected answers per the lemmas
              c08_order_*): near-twins whose list-valued modifier has its values permuted are negated iff the parser
              sorts that modifier ($ctag, $client) and not for $domain / $denyallow / $dnstype; through
@@ -19,6 +23,7 @@ l.c08order : C08, the value-ORDER behaviour of the twin relation (Go-side assert
 
 PROPS = {
     "C04": {"families": [fam("l.textref", 1500, 30000, seeds=4)]},
+    "C07": {"families": [fam("l.c07text", 1500, 30000, seeds=4)]},
     "C08": {"families": [fam("l.c08order", 300, 5000, seeds=4)]},
     "C09": {"families": [fam("l.c09mixed", 400, 8000, seeds=4)]},
 }
